@@ -165,6 +165,70 @@ theorem c18_read_sequences (size chunk : Nat) (hc : 0 < chunk) (hs : size < 6553
           exact ih w r h h1 h2
   exact key ops _ 0 (c18_new_read size chunk f) rfl rfl
 
+/-! operation sequences on the write side -/
+
+inductive WOp where
+  | add (d : Bytes)
+  | empty
+deriving Repr
+
+def WOp.apply (w : Window) : WOp → Window
+  | .add d => (w.add d).1
+  | .empty => w.empty.1
+
+/-- the bytes the buffer took over during a sequence of `add`/`empty` calls: the argument of every `add`
+that did not fail, in call order -/
+def takenOver : Window → List WOp → Bytes
+  | _, [] => []
+  | w, .add d :: ops => (if w.len = w.size then [] else d) ++ takenOver (w.add d).1 ops
+  | w, .empty :: ops => takenOver w.empty.1 ops
+
+/-- **every sequence of add/empty operations** on a window over a writable file: file content followed by
+the buffered pieces is always exactly what was there before followed by the pieces the buffer accepted, in
+order, once each (nothing lost, repeated or reordered by `empty`); the buffer never holds more than `size` -/
+theorem c18_write_sequences (ops : List WOp) (w : Window) (hs : w.size < 65536) (hl : w.elems.length ≤ w.size)
+    (hw : w.file.canWrite = true) :
+    (ops.foldl WOp.apply w).file.content ++ (ops.foldl WOp.apply w).elems.flatten
+        = w.file.content ++ w.elems.flatten ++ takenOver w ops ∧
+      (ops.foldl WOp.apply w).elems.length ≤ w.size ∧ (ops.foldl WOp.apply w).size = w.size := by
+  induction ops generalizing w with
+  | nil => simp [takenOver, hl]
+  | cons o os ih =>
+    simp only [List.foldl_cons]
+    cases o with
+    | add d =>
+      have hlen : w.len = w.elems.length := by unfold Window.len; exact Nat.mod_eq_of_lt (by omega)
+      simp only [WOp.apply, takenOver]
+      by_cases hf : w.len = w.size
+      · have e : (w.add d).1 = w := by unfold Window.add; simp [hf]
+        rw [e, if_pos hf]
+        simpa using ih w hs hl hw
+      · have e : (w.add d).1 = { w with elems := w.elems ++ [d] } := by unfold Window.add; simp [hf]
+        rw [e, if_neg hf]
+        have := ih { w with elems := w.elems ++ [d] } hs (by simp; omega) hw
+        simpa [List.append_assoc] using this
+    | empty =>
+      simp only [WOp.apply, takenOver]
+      have e : w.empty.1 = { w with elems := [], file := w.elems.foldl FileSt.write w.file } := by
+        unfold Window.empty; simp [hw]
+      rw [e]
+      obtain ⟨h1, h2⟩ := foldl_write_content w.elems w.file
+      have := ih { w with elems := [], file := w.elems.foldl FileSt.write w.file } hs (by simp) (by simpa [hw] using h2)
+      simpa [h1] using this
+
+/-- from a freshly created file: at every moment content ++ buffered pieces = everything accepted so far -/
+theorem c18_write_sequences_created (size chunk : Nat) (hs : size < 65536) (ops : List WOp) :
+    let w := ops.foldl WOp.apply (Window.new size chunk FileSt.create)
+    w.file.content ++ w.elems.flatten = takenOver (Window.new size chunk FileSt.create) ops ∧ w.elems.length ≤ size := by
+  have := c18_write_sequences ops (Window.new size chunk FileSt.create) hs (by simp [Window.new]) rfl
+  simpa [Window.new, FileSt.create, FileSt.content] using this.imp id And.left
+
+/-! non-vacuity: add, add (refused: full), empty, add on a window of size 1 -/
+example : (([WOp.add [1, 2], WOp.add [3], WOp.empty, WOp.add [4]].foldl WOp.apply (Window.new 1 8 FileSt.create)).file.content,
+    ([WOp.add [1, 2], WOp.add [3], WOp.empty, WOp.add [4]].foldl WOp.apply (Window.new 1 8 FileSt.create)).elems,
+    takenOver (Window.new 1 8 FileSt.create) [WOp.add [1, 2], WOp.add [3], WOp.empty, WOp.add [4]]) =
+    ([1, 2], [[4]], [1, 2, 4]) := by decide
+
 /-! non-vacuity: the unit test's sequence -/
 example : ((Window.new 2 5 (FileSt.openRead [72, 101, 108, 108, 111, 44, 32, 119, 111, 114, 108, 100, 33])).fill.1.remove 1).1.fill.1.elems =
     [[44, 32, 119, 111, 114], [108, 100, 33]] := by decide
